@@ -54,6 +54,9 @@ func init() {
 		"errors.New": func(ec *evalCtx, a []Value) Value {
 			id := App("errors.New", SInt, scalar(a[0]))
 			ec.st.Assume(Not(Eq(id, Int(0))))
+			if !ec.spec {
+				ec.noteFailure(True) // creating an error value marks the failure it reports
+			}
 			return id
 		},
 	}
@@ -91,6 +94,7 @@ func init() {
 	stdModels["fmt.Errorf"] = func(ec *evalCtx, call *ast.CallExpr, recv Value, args []Value) Value {
 		id := Var(ec.e().fresher.name("fmt.Errorf"), SInt)
 		ec.st.Assume(Not(Eq(id, Int(0))))
+		ec.noteFailure(True)
 		return id
 	}
 	for _, n := range []string{"Debug", "Info", "Warn", "Error"} {
